@@ -15,6 +15,10 @@
    with the implementation on every run.  "Distance" is never a formula: Spec/Geometry.v defines the mesh and
    the torus as graphs over the six link vectors and the distance as the least length of a walk.
 
+   Not covered by a theorem (oracle + correspondence only): argument containers (lists, numpy arrays and
+   scalars, one-shot iterables), float-valued vectors, state between calls (abandoned generators, results
+   modified by the caller), and the Python exception classes themselves.
+
    Random draws: random.random() = k / 2^53 is the argument k (any integer for shortest_torus_path,
    whose tie-break only compares draws; 0 <= k < 2^53 for longest_dimension_first, whose key is a float
    sum); random.randint is the function argument rint, constrained only by its contract. *)
@@ -55,7 +59,10 @@ Theorem C11_torus_path_vector :
               len (vector_walk v) = shortest_torus_path_length s d w h.
 Proof. exact torus_path_vector. Qed.
 
-(* the guards 1 <= w, 1 <= h are exactly the domain: a zero size is the only error (ZeroDivisionError) *)
+(* the guards 1 <= w, 1 <= h are exactly the domain: a zero size is the only error.  NB: these two theorems
+   are definitional -- the OtherError branch is the model wrapper's own test `w = 0 || h = 0`; that the
+   code really raises ZeroDivisionError there (and nowhere else) is established by the run-time
+   correspondence (malformed stream), not by a theorem. *)
 Theorem C11_torus_path_error :
   forall k0 k1 k2 k3 rint s d w h,
     shortest_torus_path k0 k1 k2 k3 rint s d w h = OtherError <-> (w = 0 \/ h = 0).
@@ -125,6 +132,14 @@ Theorem C11_links_from_vector_wrap :
   forall w h p l, 3 <= w -> 3 <= h -> 0 <= fst p < w -> 0 <= snd p < h ->
     links_from_vector (chip_sub (torus_step w h p l) p) = Some (link_num l).
 Proof. exact links_from_vector_wrap. Qed.
+
+(* hence on such a torus the label of a step of a walk is the only link joining the two chips (on 1 x N and
+   2 x N tori several links join the same chips and `labelled_walk` only asks for one of them, as the
+   docstring of from_vector says) *)
+Theorem C11_torus_link_unique :
+  forall w h p l1 l2, 3 <= w -> 3 <= h -> 0 <= fst p < w -> 0 <= snd p < h ->
+    torus_step w h p l1 = torus_step w h p l2 -> l1 = l2.
+Proof. exact torus_link_unique. Qed.
 
 (* ---- concentric hexagons: no duplicates, exactly the chips within distance R, nearest ring first *)
 Theorem C11_hexagons_spec :
